@@ -371,8 +371,11 @@ void kill_task(int id)
 	t->st = T_DONE;    // never scheduled again; its thread is reaped in sched_end
 }
 
+static int g_trace = -1;
 static void step_tick(Task *t, int kind, uint32_t site)
 {
+	if (g_trace < 0) g_trace = getenv("SIMK_TRACE") ? 1 : 0;
+	if (g_trace) fprintf(stderr, "T step=%llu t=%lld.%06lld task=%d(%s) kind=%d site=%u\n", (unsigned long long)g_step, (long long)(g_now / 1000000), (long long)(g_now % 1000000), t->id, t->name, kind, site);
 	g_step++;
 	t->ny++;
 	ev((uint32_t)kind, t->id, site);
